@@ -279,7 +279,7 @@ class MinErrorFlow():
         # plus the sparsity of the solution (i.e. sparsity_lambda * sum of the corrected flow going out of the source)
         self.solver.set_objective(
             self.solver.quicksum(
-                self.edge_error_vars[(u, v)] * self.edge_error_scaling.get((u, v), 1)
+                self.edge_error_vars[(u, v)] * float(self.edge_error_scaling.get((u, v), 1))
                 for (u, v) in self.G.edges()
                 if (u, v) not in self.edges_to_ignore
             ) + (self.sparsity_lambda * self.solver.quicksum(
@@ -353,7 +353,7 @@ class MinErrorFlow():
         # The sum of errors is at most 1+epsilon times the objective value
         self.solver.add_constraint(
             self.solver.quicksum(
-                self.edge_error_vars[(u, v)] * self.edge_error_scaling.get((u, v), 1)
+                self.edge_error_vars[(u, v)] * float(self.edge_error_scaling.get((u, v), 1))
                 for (u, v) in self.G.edges()
                 if (u, v) not in self.edges_to_ignore
             ) + (self.sparsity_lambda * self.solver.quicksum(
